@@ -62,6 +62,9 @@ EXPECTED_PROBES = ["load.sibling", "load.gettz_name", "load.gettz_second", "load
                    "shape.big_jump", "shape.no_transitions", "shape.one_type",
                    "system_zone"]
 
+REAL = ['dateutil.tz.tz tzfile/gettz, dateutil.zoneinfo from /repo/src', 'tarfile, gzip, io.BufferedReader, pickle, copy from CPython', 'byte copies of the system zone files under /usr/share/zoneinfo when present', 'real OS threads in the threads class']
+STUB = ["file system (SimFS behind tz.tz's open/os names, TZPATHS/TZFILES)", 'streams with injected faults (SimFile)', 'bundled archive (dateutil.zoneinfo.get_data serves a generated tar.gz)', 'thread scheduling in the threads class', 'zone data: generated TZif files (harness writer) besides the system files']
+
 CLASSES = {
     # every system zone file once, every transition probed (exhaustive over
     # the files present; runs beyond the number of files wrap around)
